@@ -10,7 +10,7 @@ args = sys.argv[1:]
 all_quick = '--all-quick' in args
 thorough_if_missed = '--thorough-if-missed' in args
 args = [a for a in args if not a.startswith('--')]
-seeds = args or sorted(d for d in os.listdir(ROOT + '/seeded') if re.fullmatch(r'C\d\d-\d', d))
+seeds = args or sorted(d for d in os.listdir(ROOT + '/seeded') if re.fullmatch(r'C\d\d-\d+', d))
 ALL = ['C%02d' % i for i in range(1, 19)]
 
 def sh(cmd, cwd=ROOT):
